@@ -35,7 +35,8 @@ class SimStepLimit(Exception):
 
 class Task:
     __slots__ = ("tid", "name", "sem", "state", "pred", "reason", "thread",
-                 "exc", "wake_exc", "timed", "timed_out", "prio", "steps")
+                 "exc", "wake_exc", "timed", "timed_out", "prio", "steps",
+                 "local")
 
     def __init__(self, tid: int, name: str) -> None:
         self.tid = tid
@@ -53,6 +54,7 @@ class Task:
         self.timed_out = False
         self.prio = 0.0
         self.steps = 0
+        self.local = None  # per-task "process-local" state (SimPool)
 
 
 _CURRENT: "Sched | None" = None
@@ -99,6 +101,7 @@ class Sched:
         self.trace_files = frozenset(trace_files)
         self.line_prob = line_prob
         self.effect_hook = None
+        self.switch_hook = None  # callable(from_task, to_task)
         self.vtime = 0.0
         # PCT change points (decision numbers at which the leader is demoted)
         self._pct_points = set()
@@ -252,6 +255,8 @@ class Sched:
         if was_timed_wait:
             nxt.timed_out = True
         nxt.state = RUNNING
+        if self.switch_hook is not None:
+            self.switch_hook(me, nxt)
         self.cur = nxt
         self.h.update(b"%d>%d;" % (me.tid, nxt.tid))
         nxt.sem.release()
